@@ -133,6 +133,10 @@ def check_array(out, facts):
                 why.append('element destination is not state.slice[state.count]: ' + sym.vstr(d[4])[:80])
             if not (sym.vstr(seq[2][1]) == 'mut state.count' and seq[2][3] == 'AddAssign' and sym.vstr(seq[2][2]) == '1:usize'):
                 why.append('counter update is not count += 1')
+    from .c02 import shortcut_success_exit
+    w = shortcut_success_exit(t)
+    if w:
+        why.append(w)
     # bulk path
     alts = [e for e in its if e[0] == 'alt']
     if not alts:
@@ -205,6 +209,9 @@ def check_box(out, facts):
             fr = [e for e in seq if e[0] == 'OWN' and e[1] == 'from_raw']
             if len(fr) > 1:
                 why.append('an error exit is reachable after the cast to Box<T>')
+            al = [e for e in seq if e[0] == 'ALLOC' and e[1] == 'alloc']
+            if al and not fr:
+                why.append('an error exit is reachable between the raw allocation and Box::from_raw: the block is owned by nobody and leaks')
             continue
         own = [e for e in seq if e[0] in ('OWN', 'dec')]
         order = [(e[1] if e[0] == 'OWN' else 'dec_into') for e in own]
@@ -311,10 +318,7 @@ def run(cx, out):
         check_default_decode_into(out, facts)
         check_bulk_vec(out, facts)
     # derived in-place decoders: the corpus of C05 (R05.5 / R10.5)
-    from . import c05
-    from ..report import Out
-    sub = Out('C05')
-    c05.run(cx, sub)
+    from . import shared
     out.rule('R10.5', 'derived decode_into: no exit after a successful in-place field decode without dropping it (derive corpus of C05)')
     out.rule('R05.5', 'derived decode_into exists only for attribute-free repr(transparent) structs and decodes the fields in order')
-    out.absorb(sub, {'R10.5', 'R05.5'})
+    shared.premises(cx, out, {'c05': {'R10.5', 'R05.5'}, 'c02': {'R02.5'}})
